@@ -73,6 +73,10 @@ func genSpecialUser(t *rapid.T, n int) world.UserSpec {
 	seen := map[string]bool{}
 	for i := 0; i < nc; i++ {
 		name := opt("cname")
+		if rapid.IntRange(0, 4).Draw(t, "cname-like-standard") == 0 {
+			// a custom attribute may well be called like one of the six standard ones (or nearly so)
+			name = rapid.SampledFrom([]string{"Email", "SurName", "FirstName", "FullName", "UserName", "UserID", "email", "Username", "UserId"}).Draw(t, "cname-standard")
+		}
 		if seen[name] {
 			continue
 		}
